@@ -132,7 +132,11 @@ func (ctx *baseTaskContext) addRequests(req *protoCommonV1.TaskRequest, physical
 // Complete completes the task with error(if execute failure).
 func (ctx *baseTaskContext) Complete(err error) {
 	ctx.mutex.Lock()
-	ctx.err = err
+	// never replace an error which a task response recorded already by nil,
+	// the plan stage may complete after a (failure) response has been handled.
+	if err != nil || ctx.err == nil {
+		ctx.err = err
+	}
 	ctx.mutex.Unlock()
 
 	ctx.tryClose()
